@@ -1,5 +1,5 @@
 (* C09 — each logical file has the mandated order: header, origin, sets, then data. Statements only. *)
-From DV Require Import Model.ApiDispatch Proofs.BuilderP Proofs.RegP.
+From DV Require Import Model.ApiDispatch Proofs.BuilderP Proofs.RegP Proofs.FileP Proofs.KeepP Proofs.ContentP.
 
 (* the records of a logical file are: the FILE-HEADER record (type 0, one object, sequence number right-justified in 10,
    id left-justified in 65 — see enc_fileheader), then explicitly formatted records only, then indirectly formatted
@@ -35,6 +35,29 @@ Example C09_header :
   /\ firstn 16 (skipn 41 b) = [33; 10; 32; 32; 32; 32; 32; 32; 32; 32; 32; 55; 33; 65; 72; 73].
 Proof. eexists. split; vm_compute; reflexivity. Qed.
 
+(* the order of a whole file written through the API (Proofs/ContentP.v): one group of records per logical file, in the
+   order of the logical files; a group opens with the header record of ITS logical file (enc_fileheader of that file's
+   header fields), continues with exactly one record per set registered for it — ORIGIN sets first, then the other types
+   in registry order (lf_sids) — each decoding to that set (or empty, hence dropped by the segmenter, for a set without
+   objects), and ends with implicitly formatted records only: every object of the logical file precedes every data record
+   of it. Hypothesis: no set registered for two logical files (known finding D12 excluded; automatic with one logical file). *)
+Print lf_group.
+Theorem C09_api_file_order : forall l ps hc w st' bs,
+  let st := snd (run_actions ps b_init l) in
+  write hc st w = (st', OK bs) ->
+  NoDup (concat (map lf_sids (b_lfs st))) ->
+  exists groups,
+    write_file {| sul_seq := w_seq w; sul_vrl := w_vrl w; sul_id := w_ident w |} (concat groups) = OK bs
+    /\ Forall2 (lf_group st') (b_lfs st) groups.
+Proof.
+  intros l ps hc w st' bs st H Hnd.
+  assert (Hi : Inv st) by (apply reachable_inv_actions; split; [apply WriteP.inv_shape_init | apply StructP.inv_struct_init]).
+  assert (Hr : Inv_reg st) by (apply reachable_inv_reg_actions; [split; [apply WriteP.inv_shape_init | apply StructP.inv_struct_init] | apply inv_reg_init]).
+  assert (Hd : Inv_disj st) by (apply reachable_inv_disj_actions; [split; [apply WriteP.inv_shape_init | apply StructP.inv_struct_init] | apply inv_reg_init | apply inv_disj_init]).
+  destruct (write_content hc st w st' bs H Hi Hr Hd Hnd) as (groups & Hw & Hall & _). exists groups. split; assumption.
+Qed.
+
 Print Assumptions C09_order.
 Print Assumptions C09_no_empty_sets.
 Print Assumptions C09_sets_once.
+Print Assumptions C09_api_file_order.
